@@ -12,88 +12,7 @@ use std::cmp::Ordering;
 verus! {
 global size_of usize == 8;
 
-// ---- dependencies (assumed) ----------------------------------------------------------------------------------------
-pub struct VxIoError { pub code: u64 }
-pub enum SeekFrom { Start(u64), End(i64), Current(i64) }
-
-// little-endian u64 stored at byte offset `off` of the underlying bytes (decoding itself is K-ENTRYCODEC's business)
-pub uninterp spec fn spec_u64_at(data: Seq<u8>, off: int) -> u64;
-
-// `R: Read + Seek`: ghost view = immutable bytes, a byte position, and the log of (offset, length) of every read attempted
-pub trait VxReadSeek: Sized {
-    spec fn data(&self) -> Seq<u8>;
-    spec fn pos(&self) -> int;
-    spec fn log(&self) -> Seq<(int, int)>;
-    fn seek(&mut self, p: SeekFrom) -> (r: Result<u64, VxIoError>)
-        ensures
-            final(self).data() == old(self).data(),
-            final(self).log() == old(self).log(),
-            r is Ok ==> (p matches SeekFrom::Start(x) ==> final(self).pos() == x);
-}
-
-// `ReadValueFunction: Fn(&mut R) -> Result<Value, io::Error>`
-pub trait VxReadValueFn<R: VxReadSeek, Value> {
-    spec fn decode(&self, data: Seq<u8>, off: int) -> Value;
-    fn call(&self, reader: &mut R) -> (r: Result<Value, VxIoError>)
-        ensures
-            final(reader).data() == old(reader).data(),
-            final(reader).log() == old(reader).log().push((old(reader).pos(), size_of::<Value>() as int)),
-            r matches Ok(v) ==> v == self.decode(old(reader).data(), old(reader).pos())
-                && final(reader).pos() == old(reader).pos() + size_of::<Value>();
-}
-
-// utils::serialization_utils::read_u64
-#[verifier::external_body]
-pub fn read_u64<R: VxReadSeek>(reader: &mut R) -> (r: Result<u64, VxIoError>)
-    ensures
-        final(reader).data() == old(reader).data(),
-        final(reader).log() == old(reader).log().push((old(reader).pos(), 8int)),
-        r matches Ok(v) ==> v == spec_u64_at(old(reader).data(), old(reader).pos())
-            && final(reader).pos() == old(reader).pos() + 8,
-{ unimplemented!() }
-
-// R7 outline of the float interpolation term.  Its value is ARBITRARY for the functional proof; the only assumed fact is
-// the magnitude bound that keeps `lo + <term>` inside u64 (IEEE: a<=b => a/b <= 1.0, and c <= 2^53 is exact in f64).
-#[verifier::external_body]
-pub fn vx_interp(a: u64, b: u64, c: u64) -> (r: u64)
-    ensures a <= b && c <= 0x20_0000_0000_0000 ==> r <= c,
-{ (a as f64 / b as f64 * c as f64).floor() as u64 }
-
-// ---- the table as seen through the reader ---------------------------------------------------------------------------
-pub open spec fn off(rs: int, psz: int, i: int) -> int { rs + i * psz }
-pub open spec fn tkey(data: Seq<u8>, rs: int, psz: int, i: int) -> u64 { spec_u64_at(data, off(rs, psz, i)) }
-pub open spec fn tval<R: VxReadSeek, V, F: VxReadValueFn<R, V>>(f: F, data: Seq<u8>, rs: int, psz: int, i: int) -> V {
-    f.decode(data, off(rs, psz, i) + 8)
-}
-pub open spec fn sorted(data: Seq<u8>, rs: int, psz: int, n: int) -> bool {
-    forall|i: int, j: int| 0 <= i <= j < n ==> #[trigger] tkey(data, rs, psz, i) <= #[trigger] tkey(data, rs, psz, j)
-}
-// indices (0-based) of the entries stored under `key`
-pub open spec fn matches(data: Seq<u8>, rs: int, psz: int, n: int, key: u64) -> Set<int> {
-    set_int_range(0, n).filter(|i: int| tkey(data, rs, psz, i) == key)
-}
-pub open spec fn min_int(a: int, b: int) -> int { if a <= b { a } else { b } }
-
-// every read logged from position `from` on lies inside [lo, hi)
-pub open spec fn log_within(log: Seq<(int, int)>, from: int, lo: int, hi: int) -> bool {
-    forall|k: int| from <= k < log.len() ==> lo <= (#[trigger] log[k]).0 && log[k].0 + log[k].1 <= hi && log[k].1 >= 0
-}
-
-// `wit` lists the entries whose values were stored, in the order of the result slice
-pub open spec fn written_ok<R: VxReadSeek, V, F: VxReadValueFn<R, V>>(f: F, data: Seq<u8>, rs: int, psz: int, n: int, key: u64,
-        wit: Seq<int>, cnt: int, res: Seq<V>) -> bool {
-    &&& wit.len() == cnt
-    &&& cnt <= res.len()
-    &&& wit.no_duplicates()
-    &&& forall|k: int| 0 <= k < cnt ==> 0 <= #[trigger] wit[k] < n && tkey(data, rs, psz, wit[k]) == key
-            && res[k] == tval::<R, V, F>(f, data, rs, psz, wit[k])
-}
-
-// the first cnt slots of `res` hold the values of cnt distinct entries stored under `key`
-pub open spec fn stored_ok<R: VxReadSeek, V, F: VxReadValueFn<R, V>>(f: F, data: Seq<u8>, rs: int, psz: int, n: int, key: u64,
-        cnt: int, res: Seq<V>) -> bool {
-    exists|wit: Seq<int>| #[trigger] written_ok::<R, V, F>(f, data, rs, psz, n, key, wit, cnt, res)
-}
+//@ include prelude/isearch_specs.rs
 
 // w holds exactly the matching entries with index in [a,b) or >= h
 pub open spec fn covers(w: Seq<int>, data: Seq<u8>, rs: int, psz: int, n: int, key: u64, a: int, b: int, h: int) -> bool {
@@ -108,19 +27,12 @@ pub proof fn lemma_geom(rs: int, psz: int, i: int, n: int)
         off(rs, psz, i + 1) == off(rs, psz, i) + psz,
         off(rs, psz, i + 1) <= off(rs, psz, n),
         0 <= i * psz <= n * psz,
+        0 <= (i + 1) * psz <= n * psz,
 {
     assert(0 <= i * psz) by (nonlinear_arith) requires 0 <= i, 0 <= psz;
     assert((i + 1) * psz == i * psz + psz) by (nonlinear_arith);
     assert((i + 1) * psz <= n * psz) by (nonlinear_arith) requires i + 1 <= n, 0 <= psz;
 }
-pub proof fn lemma_geom_le(rs: int, psz: int, i: int, n: int)
-    requires 0 <= i <= n, 0 <= psz,
-    ensures 0 <= i * psz <= n * psz, off(rs, psz, i) <= off(rs, psz, n),
-{
-    assert(0 <= i * psz) by (nonlinear_arith) requires 0 <= i, 0 <= psz;
-    assert(i * psz <= n * psz) by (nonlinear_arith) requires i <= n, 0 <= psz;
-}
-
 pub proof fn lemma_push(w: Seq<int>, x: int)
     requires w.no_duplicates(), !w.contains(x),
     ensures
@@ -157,6 +69,17 @@ pub proof fn lemma_cover_push(w: Seq<int>, data: Seq<u8>, rs: int, psz: int, n: 
     lemma_push(w, b);
 }
 
+pub proof fn lemma_no_match(data: Seq<u8>, rs: int, psz: int, n: int, key: u64)
+    requires matches(data, rs, psz, n, key).len() == 0,
+    ensures forall|i: int| 0 <= i < n ==> #[trigger] tkey(data, rs, psz, i) != key,
+{
+    let m = matches(data, rs, psz, n, key);
+    m.lemma_len0_is_empty();
+    assert forall|i: int| 0 <= i < n implies #[trigger] tkey(data, rs, psz, i) != key by {
+        if tkey(data, rs, psz, i) == key { assert(m.contains(i)); }
+    }
+}
+
 // at the end: w enumerates all matches without repetition => its length is the number of matches
 pub proof fn lemma_count(w: Seq<int>, data: Seq<u8>, rs: int, psz: int, n: int, key: u64)
     requires covers(w, data, rs, psz, n, key, 0, 0, 0), w.no_duplicates(),
@@ -180,6 +103,8 @@ pub proof fn lemma_witness<R: VxReadSeek, V, F: VxReadValueFn<R, V>>(f: F, data:
         written_ok::<R, V, F>(f, data, rs, psz, n, key, w.subrange(0, cnt), cnt, res),
 {
     let wit = w.subrange(0, cnt);
+    lemma_count(w, data, rs, psz, n, key);
+    if cnt == w.len() { assert(wit =~= w); }
     assert forall|k: int| 0 <= k < cnt implies 0 <= #[trigger] wit[k] < n && tkey(data, rs, psz, wit[k]) == key
             && res[k] == tval::<R, V, F>(f, data, rs, psz, wit[k]) by {
         assert(wit[k] == w[k]);
@@ -193,27 +118,19 @@ pub proof fn lemma_witness<R: VxReadSeek, V, F: VxReadValueFn<R, V>>(f: F, data:
 //@ subst `((key - lo_key) as f64 / (hi_key - lo_key) as f64 * (hi - lo) as f64).floor() as u64` => `vx_interp(key - lo_key, hi_key - lo_key, hi - lo)` :: R7 outline of the float interpolation term (integer subtractions stay verified); assumed: result <= hi-lo when hi-lo <= 2^53, otherwise arbitrary
 //@ contract
     requires
-        // a table of num_entries (key: u64, value: Value) records at read_start, keys non-decreasing
-        num_entries < 0x20_0000_0000_0000,
-        size_of::<Value>() + 8 <= usize::MAX,
-        read_start + num_entries * (size_of::<Value>() + 8) <= u64::MAX,
-        sorted(old(reader).data(), read_start as int, size_of::<Value>() + 8, num_entries as int),
+        search_pre::<Value>(old(reader).data(), read_start, num_entries),
     ensures
         final(reader).data() == old(reader).data(),
         final(result)@.len() == old(result)@.len(),
         // every read attempted by the search (successful or not) lies inside the table
-        /*@C09*/ final(reader).log().len() >= old(reader).log().len()
-            && final(reader).log().subrange(0, old(reader).log().len() as int) == old(reader).log()
-            && log_within(final(reader).log(), old(reader).log().len() as int, read_start as int,
-                          read_start + num_entries * (size_of::<Value>() + 8)),
+        /*@C09*/ search_reads_ok::<Value>(old(reader).log(), final(reader).log(), read_start, num_entries),
         // the number returned is min(#entries with the key, |result|)
-        /*@C09*/ ret matches Ok(cnt) ==> cnt == min_int(
-            matches(old(reader).data(), read_start as int, size_of::<Value>() + 8, num_entries as int, key).len() as int,
-            old(result)@.len() as int),
-        // the first cnt slots hold the values of cnt DISTINCT entries stored under the key; the rest is untouched
+        /*@C09*/ ret matches Ok(cnt) ==> search_count_ok::<Value>(old(reader).data(), read_start, num_entries, key, old(result)@.len() as int, cnt as int),
+        // the first cnt slots hold the values of cnt DISTINCT entries stored under the key (all of them if they fit) ...
         /*@C09*/ ret matches Ok(cnt) ==> stored_ok::<R, Value, ReadValueFunction>(read_value_function,
             old(reader).data(), read_start as int, size_of::<Value>() + 8, num_entries as int, key, cnt as int, final(result)@),
-        /*@C09*/ ret matches Ok(cnt) ==> forall|k: int| cnt <= k < old(result)@.len() ==> final(result)@[k] == old(result)@[k],
+        // ... and the rest of the slice is untouched
+        /*@C09*/ ret matches Ok(cnt) ==> search_tail_ok::<Value>(old(result)@, final(result)@, cnt as int),
 //@ after `let mut result_write_idx = 0;`
     let ghost d0 = reader.data();
     let ghost rs = read_start as int;
@@ -224,9 +141,9 @@ pub proof fn lemma_witness<R: VxReadSeek, V, F: VxReadValueFn<R, V>>(f: F, data:
     let ghost mut w: Seq<int> = Seq::empty();
     let ghost mut g: int = 0;
     let ghost mut g0: int = 0;
-    let ghost mut lo0: int = 0;
     proof {
         assert(reader.log().subrange(0, l0) =~= log0);
+        if matches(d0, rs, psz, n, key).len() == 0 { lemma_no_match(d0, rs, psz, n, key); }
         assert(written_ok::<R, Value, ReadValueFunction>(read_value_function, d0, rs, psz, n, key, Seq::<int>::empty(), 0, result@));
     }
 //@ loop 1
@@ -237,6 +154,7 @@ pub proof fn lemma_witness<R: VxReadSeek, V, F: VxReadValueFn<R, V>>(f: F, data:
             l0 == old(reader).log().len(), reader.log().len() >= l0, reader.log().subrange(0, l0) == old(reader).log(),
             log_within(reader.log(), l0, rs, rs + n * psz),
             0 <= lo < hi <= n + 1,
+            0 <= lo * psz <= n * psz,
             lo_key <= key <= hi_key,
             lo >= 1 ==> tkey(d0, rs, psz, lo - 1) < key,
             lo + 256 < hi ==> lo < probe_index < hi,
@@ -287,11 +205,6 @@ pub proof fn lemma_witness<R: VxReadSeek, V, F: VxReadValueFn<R, V>>(f: F, data:
                         w = w.push(g);
                         g = g + 1;
                     }
-//@ before `reader.seek(` #2
-    proof {
-        lemma_geom_le(rs, psz, lo as int, n);
-        lo0 = lo as int;
-    }
 //@ loop 3
         invariant
             pair_size == psz, psz == size_of::<Value>() + 8, psz <= usize::MAX, n == num_entries, rs == read_start,
@@ -299,10 +212,9 @@ pub proof fn lemma_witness<R: VxReadSeek, V, F: VxReadValueFn<R, V>>(f: F, data:
             result@.len() == old(result)@.len(),
             l0 == old(reader).log().len(), reader.log().len() >= l0, reader.log().subrange(0, l0) == old(reader).log(),
             log_within(reader.log(), l0, rs, rs + n * psz),
-            0 <= lo0 <= lo < hi <= n + 1,
-            lo0 >= 1 ==> tkey(d0, rs, psz, lo0 - 1) < key,
+            0 <= lo < hi <= n + 1,
             reader.pos() == off(rs, psz, lo as int),
-            covers(w, d0, rs, psz, n, key, lo0, lo as int, hi - 1),
+            covers(w, d0, rs, psz, n, key, 0, lo as int, hi - 1),
             w.no_duplicates(),
             result_write_idx == min_int(w.len() as int, result@.len() as int),
             forall|k: int| 0 <= k < result_write_idx ==> result@[k] == tval::<R, Value, ReadValueFunction>(read_value_function, d0, rs, psz, #[trigger] w[k]),
@@ -315,7 +227,7 @@ pub proof fn lemma_witness<R: VxReadSeek, V, F: VxReadValueFn<R, V>>(f: F, data:
 //@ after `lo += 1;`
         proof {
             if probe_key == key {
-                lemma_cover_push(w, d0, rs, psz, n, key, lo0, lo - 1, hi - 1);
+                lemma_cover_push(w, d0, rs, psz, n, key, 0, lo - 1, hi - 1);
                 w = w.push(lo - 1);
             }
         }
